@@ -76,6 +76,17 @@ impl<S: Read + Write> Stream<S> {
         Ok(buffer.len())
     }
 
+    /// Number of bytes already received and decrypted
+    /// but not yet read : a TLS record can carry more
+    /// than one PDU, the following ones wait in the TLS buffer
+    /// where a select/poll on the socket can't see them
+    pub fn buffered_read_size(&self) -> usize {
+        match self {
+            Stream::Ssl(e) => e.buffered_read_size().unwrap_or(0),
+            _ => 0
+        }
+    }
+
     /// Shutdown the stream
     /// Only works when stream is a SSL stream
     pub fn shutdown(&mut self) -> RdpResult<()> {
@@ -212,6 +223,11 @@ impl<S: Read + Write> Link<S> {
     /// Only works on SSL Stream
     pub fn shutdown(&mut self) -> RdpResult<()> {
         self.stream.shutdown()
+    }
+
+    /// Number of bytes that can be read without waiting for the socket
+    pub fn pending(&self) -> usize {
+        self.stream.buffered_read_size()
     }
 
     #[cfg(feature = "integration")]
